@@ -52,4 +52,15 @@ theorem addNextEntry_eq (cfg : FCfg) (s : FState) (e : Entry) :
     by_cases h3 : (s.results.length : Int) + (e.refs.length : Int) ≤ cfg.length <;>
     simp [h1, h2, h3, hr, addHashes, Bool.or_assoc, gt_or_beq]
 
+/-- the admission test of `processQueue` (with the minimum clock `updateClock` has just computed) is the model's
+    `admits`, whatever boolean shape the code gives it -/
+theorem admission_eq (cfg : FCfg) (s : FState) (e : Entry) :
+    Generated.Go.admission cfg.length (newMin s e) (newMax s e) s.results e.clock.time = admits cfg s e := by
+  unfold Generated.Go.admission admits
+  by_cases h1 : cfg.length < 0 <;>
+  by_cases h2 : (s.results.length : Int) < cfg.length <;>
+  by_cases h3 : (s.results.length : Int) ≥ cfg.length <;>
+  by_cases h4 : e.clock.time ≥ newMin s e <;>
+  simp [h1, h2, h3, h4, gt_or_beq]
+
 end Model.SlicesGen
